@@ -30,6 +30,8 @@ FORCE_FORK = 'F'
 MERGE = 'M'
 
 FEAS_TIMEOUT_MS = 5000
+MUST_HOLD_TIMEOUT_MS = 1000     # entailment probes (piece sharing, short-circuit sites): `unknown` is "not entailed" (sound)
+SITE_TIMEOUT_MS = 500
 
 
 class PathState:
@@ -93,12 +95,18 @@ class PathState:
         self.pc.append(t)
         self.solver.add(t)
 
-    def check(self, *extra):
+    def check(self, *extra, timeout_ms=None):
         """sat / unsat / unknown of pc + scopes + extra."""
         self.stats['feasibility_queries'] = self.stats.get('feasibility_queries', 0) + 1
         import time as _t
         t0 = _t.time()
-        r = self.solver.check(*(list(self.scopes) + list(extra)))
+        if timeout_ms is not None:
+            self.solver.set('timeout', timeout_ms)
+        try:
+            r = self.solver.check(*(list(self.scopes) + list(extra)))
+        finally:
+            if timeout_ms is not None:
+                self.solver.set('timeout', FEAS_TIMEOUT_MS)
         dt = _t.time() - t0
         if dt > 1.0:
             self.stats.setdefault('slow_queries', []).append((round(dt, 2), str(r), [str(e)[:200] for e in extra]))
@@ -111,9 +119,9 @@ class PathState:
             return True       # over-approximate: explore
         return r == z3.sat
 
-    def must_hold(self, t):
-        """True iff ``t`` is entailed by the current path condition (+ scopes)."""
-        r = self.check(z3.Not(t))
+    def must_hold(self, t, timeout_ms=MUST_HOLD_TIMEOUT_MS):
+        """True iff ``t`` is (quickly shown to be) entailed by the current path condition (+ scopes)."""
+        r = self.check(z3.Not(t), timeout_ms=timeout_ms)
         return r == z3.unsat
 
     # ---- decisions --------------------------------------------------------------
@@ -203,10 +211,10 @@ class PathState:
         k = self._lookup_known(t)
         if k is not None:
             r = 'T' if k else 'N'
-        elif self.must_hold(t):
+        elif self.must_hold(t, SITE_TIMEOUT_MS):
             r = 'T'
             self._record_known(t, True)
-        elif self.must_hold(z3.Not(t)):
+        elif self.must_hold(z3.Not(t), SITE_TIMEOUT_MS):
             r = 'N'
             self._record_known(t, False)
         else:
